@@ -33,6 +33,54 @@ CLAIMED["C08"] = dict(
     technique="Lean 4 proof (N-thread inductive invariant over an atomic-access-level protocol model) + E-SHIM trace replay",
     design="§3 C08, §2.6")
 
+CLAIMED["C06"] = dict(
+    text="Lean 4 theorems for every schedule/steal oracle: parallel_reduce's body value is the range in order (free monoid), each element "
+         "once, a body is joined only into the body it was split from after both finished; deterministic_reduce's split/join term is a "
+         "function of (range, grain[, divisor]); parallel_scan gives every element exactly one final pass with the in-order prefix (general "
+         "oracle); quick-sort split is a permutation with left <= pivot <= right for any strict weak order and strictly smaller parts; "
+         "the sort pretest covers every adjacent pair. Tie: generated constants/guards from the source, white-box differential on the real "
+         "split/median/pretest code, real parallel runs with recording bodies whose event logs are replayed as model transitions.",
+    note="Trusted: Lean kernel, standard axioms, harness/c06 recording bodies, sampled correspondence (real threads, not controlled "
+         "schedules). static_partitioner term proved for n<65536, divisor<=64 (exact binary32).",
+    technique="Lean 4 proof (task-tree interleaving model over the free monoid) + generated constants + differential / trace validation",
+    design="§3 C06")
+CLAIMED["C07"] = dict(
+    text="Lean 4 theorems for arbitrary filter lists, token limits >= 1, item counts and schedules: the token ring refines a finite map "
+         "(grow preserves it, no slot collision, a parked token is released exactly when low reaches it); at most max_number_of_live_tokens "
+         "items in flight; serial filters never overlap; all serial_in_order filters see one common order; every item passes every filter "
+         "exactly once; the call returns only after end of input and drain. Tie: generated buffer constants, white-box differential on the "
+         "real input_buffer, real and E-SHIM (controlled scheduler, whole instrumented runtime) pipeline runs validated event by event "
+         "against the model.",
+    note="Trusted: Lean kernel, standard axioms, harness/c07, E-SHIM runtime, sampled correspondence. Model step granularity = lock regions, "
+         "RMWs and filter begin/end of parallel_pipeline.cpp.",
+    technique="Lean 4 proof (5 inductive invariants over a 13-pc interleaving model; ring refinement) + E-PURE/E-REAL/E-SHIM trace validation",
+    design="§3 C07")
+CLAIMED["C15"] = dict(
+    text="Lean 4 theorems over all operation sequences of the node machines (every state change of these nodes is inside an aggregator "
+         "handler or mutex): item_buffer ring refines a map incl. growth with reserved slots; queue_node FIFO; sequencer_node emits exactly "
+         "0,1,2,.. in order; priority_queue_node emits a maximum and conserves items; reservations release/consume exactly the reserved "
+         "item; limiter ghost counter <= threshold for any integer decrements racing puts; queueing join i-th tuple; key_matching same key "
+         "once; reserving join all-or-nothing; overwrite/write_once/broadcast/split/indexer routing. Tie: generated constants and a "
+         "behavioural switch probed from the real buffer_node, white-box differential on the real item_buffer, real node classes driven "
+         "by op scripts and compared with the Lean drivers, multi-threaded runs with independent monitors.",
+    note="Trusted: Lean kernel, standard axioms, harness/c15, sampled correspondence. Atomicity of a node operation rests on the aggregator "
+         "(C13) / node mutex, not re-proved here.",
+    technique="Lean 4 proof (sequential node machines, inductive invariants, refinement to maps/multisets) + scripted differential correspondence",
+    design="§3 C15, §4 F4")
+CLAIMED["C16"] = dict(
+    text="Lean 4 theorems for every demand vector, any number of arenas and priority levels: sum of allotments = min(total demand, "
+         "effective limit), none above its request, strict priority order, mandatory-concurrency worker; market words stay consistent under "
+         "any register/unregister/adjust/limit sequence; deltas handed to the thread server telescope to min(limit, demand); pending-delta "
+         "packing loses nothing under any interleaving of update calls; global_control active value = min of live values; arena slots: "
+         "distinct owners, indices below num_slots, reserved slots never held by workers, for any number of threads and every schedule. "
+         "Tie: generated constants, the real market/serializer/arena/global_control code driven white-box and compared with the models, "
+         "E-SHIM access-level replay of slot occupation and serializer updates (random + DFS schedules).",
+    note="Trusted: Lean kernel, standard axioms, harness/c16 (white-box assembly of threading_control with a fake rml server), E-SHIM, sampled "
+         "correspondence. Not covered by theorems: isolation filters, observer entry/exit pairing, transient per-arena overshoot of try_join. "
+         "Unbounded integers (inputs kept below the int range; an int overflow in update_allotment above 46341 workers is recorded as an observation).",
+    technique="Lean 4 proof (arithmetic + machine invariants + N-thread protocol invariants) + white-box differential + E-SHIM trace replay",
+    design="§3 C16")
+
 NOT_YET = "check not built yet in this round (planned: DESIGN.md §3); no claim is made"
 
 
